@@ -27,6 +27,11 @@ def forbidden : Bytes := [0x22, 0x26, 0x27, 0x2f, 0x3a, 0x3c, 0x3e, 0x40]
 /-- the length limit of every part (regenerated as `Generated.C11.limits`) -/
 def maxPart : Nat := 1023
 
+/-- the length checks of `localChecks`, `normalizeDomainpart`, `resourceChecks` on a part whose
+normalised form has `n` bytes: (n, local accepted, domain accepted, resource accepted) -/
+def partLenTable (ns : List Nat) : List (Nat × Bool × Bool × Bool) :=
+  ns.map fun n => (n, !decide (n > maxPart), !(decide (n < 1) || decide (n > maxPart)), !decide (n > maxPart))
+
 def validUtf8 (b : Bytes) : Bool := (ByteArray.mk b.toArray).validateUTF8
 
 structure Jid where
